@@ -54,14 +54,17 @@ ASSUMPTIONS = [
 # ---------------------------------------------------------------------------------------
 # strategies
 # ---------------------------------------------------------------------------------------
-def case_strategy(mode, min_trackers=0, max_trackers=4, kinds=("lin", "nonlin", "nonauto")):
+def case_strategy(mode, min_trackers=0, max_trackers=4, kinds=("lin", "nonlin", "nonauto"), hook=False):
     jit = mode == "jit"
     tr_kinds = ("data", "callback", "storage", "custom", "callback1")
 
     @st.composite
     def build(draw):
         eq = draw(sc.eq_specs(kinds))
-        state = draw(sc.state_specs(allow_coll=eq["kind"] != "nonlin", allow_complex=eq["kind"] == "lin"))
+        if hook and eq["kind"] == "lin" and draw(st.integers(0, 2)) == 0:
+            eq = dict(eq, hook=True)  # equation with a stateful post-step hook (metamorphic clause only)
+        state = draw(sc.state_specs(allow_coll=eq["kind"] != "nonlin" and not eq.get("hook"),
+                                    allow_complex=eq["kind"] == "lin"))
         time = draw(sc.time_specs(max_n=40 if jit else 200))
         solver = draw(sc.solver_specs(mode))
         trackers = draw(st.lists(sc.tracker_specs(tr_kinds, funcs=not jit),
@@ -294,13 +297,13 @@ R_ACCT = "non-trivial = N >= 3, a reference state exists, and (no tracker or a n
 R_INIT = "non-trivial = the simulation moved the state away from the initial data"
 
 SUBCHECKS = [
-    _sub("observation_metamorphic_nojit", lambda: case_strategy("nojit", min_trackers=1),
+    _sub("observation_metamorphic_nojit", lambda: case_strategy("nojit", min_trackers=1, hook=True),
          check_metamorphic, "nojit", 2000, 40000, 6, R_META),
     _sub("step_time_accounting_nojit", lambda: case_strategy("nojit"),
          check_accounting, "nojit", 2000, 40000, 5, R_ACCT),
     _sub("initial_state_untouched_nojit", lambda: untouched_strategy("nojit"),
          check_untouched, "nojit", 600, 12000, 2, R_INIT),
-    _sub("observation_metamorphic_jit", lambda: case_strategy("jit", min_trackers=1, max_trackers=3),
+    _sub("observation_metamorphic_jit", lambda: case_strategy("jit", min_trackers=1, max_trackers=3, hook=True),
          check_metamorphic, "jit", 12, 200, 2, R_META),
     _sub("step_time_accounting_jit", lambda: case_strategy("jit", max_trackers=3),
          check_accounting, "jit", 16, 250, 2, R_ACCT),
